@@ -7,6 +7,8 @@
              flush_finished_block clears the header size and the buffer only on the success edge of the sink write;
              bytes are appended to the block buffer only after flush_finished_block succeeded in the same call
   MUSTCALL   into_inner, Writer::finish_block and Drop::drop (both arms) reach finish_block -> flush
+             ... and when the flush inside into_inner fails the Err comes out: the sink is taken out on every way out of
+             into_inner and Drop flushes only while the sink is there / no block write has failed      (found F29)
 It does NOT decide that the concatenated bytes are a valid file as a whole, nor crash points inside one sink write.
 """
 from ..lib import *
